@@ -79,7 +79,10 @@ def check_deck(deck, seed, flags=(), lattice=(), n_points=60, want=('C01', 'C08'
         # a flagged surface "bounds a converted cell" when some cell with non-zero importance references it
         bounding = set()
         for c in deck.cells.values():
-            if c.imp != 0 and c.universe == 0:
+            # "bounds a converted cell": referenced by a cell of non-zero importance that was actually converted
+            # (a cell that is empty, e.g. because another cell already covers all space, yields no volume)
+            converted = c.id in f.volumes or c.fill is not None or c.fill_array is not None
+            if c.imp != 0 and c.universe == 0 and converted:
                 u = set()
                 _collect_surfaces(c.expr, u, deck, set())
                 bounding |= u
